@@ -103,11 +103,58 @@ def opPH : P String := do
   | .error e => pure ("err " ++ showErr e)
   | .ok h => pure (showHist h)
 
+/-- positions `0..n-1` as outcomes, with the given counts -/
+def idxHist (cs : List Nat) : Hist Int := (List.range cs.length).zip cs |>.map fun ic => ((ic.1 : Int), ic.2)
+
+def showHistT (h : Hist Int) : String :=
+  let pos := h.filter fun oc => oc.2 ≠ 0
+  "ok " ++ " ".intercalate (pos.map fun oc => toString oc.1 ++ ":" ++ toString oc.2) ++ " total=" ++ toString (total h)
+
+/-- an operand: `0 counts…` = histogram (outcomes are positions), or
+`1 dice… flat…` = pool, flattened by the model (`sumH`), whose outcomes must be the listed ones -/
+def operand : P (Except String (List Nat)) := do
+  let t ← tok
+  if t = 0 then do
+    let cs ← listOf nat
+    pure (.ok cs)
+  else do
+    let dice ← listOf hist
+    let flat ← listOf tok
+    let F := sumH leI 0 (· + ·) dice
+    if F.map Prod.fst = flat then pure (.ok (F.map Prod.snd)) else pure (.error "flat-mismatch")
+
+/-- `MAP operand operand table[la*lb]`: `a op b` with `op` given as the table of Python's own
+results (as ranks) on every operand pair -/
+def opMAP : P String := do
+  let a ← operand
+  let b ← operand
+  match a, b with
+  | .ok ca, .ok cb =>
+    let tbl ← many tok (ca.length * cb.length)
+    let arr := tbl.toArray
+    let lb := cb.length
+    let op (i j : Int) : Int := arr.getD (i.toNat * lb + j.toNat) (-1)
+    pure (showHistT (mapH leI op (idxHist ca) (idxHist cb)))
+  | .error e, _ => pure e
+  | _, .error e => pure e
+
+/-- `UMAP la counts… table[la]`: relabelling (unary operator / scalar operand on either side) -/
+def opUMAP : P String := do
+  let a ← operand
+  match a with
+  | .ok ca =>
+    let tbl ← many tok ca.length
+    let arr := tbl.toArray
+    pure (showHistT (umapH leI (fun i => arr.getD i.toNat (-1)) (idxHist ca)))
+  | .error e => pure e
+
 def dispatch (op : String) : P String :=
   match op with
   | "RWC" => opRWC
   | "RWCSPEC" => opRWCSPEC
   | "PH" => opPH
+  | "MAP" => opMAP
+  | "UMAP" => opUMAP
   | _ => pure "bad-op"
 
 def answer (line : String) : String :=
